@@ -33,6 +33,7 @@ struct Stmt {
   std::string target;
   int goto_raw = 0;  // unresolved jump target choice
   bool fwd = true;
+  int share_grp = 0, share_occ = 0;  // >0: member of a statement block that occurs twice (printed once, included twice)
 };
 
 struct Routine {
@@ -50,6 +51,11 @@ struct Program {
   std::vector<Stmt> main;
   unsigned macros = 0;  // MacroBit set actually used
   int add_def = -1, mul_def = -1;
+  // priorities of the arithmetic macros: normally * (20) binds tighter than & (10); with swap_prec it is the
+  // other way round, and the AST is built accordingly ("any mix of priorities")
+  bool swap_prec = false;
+  int prio_add = 10, prio_mul = 20, prio_callp = 30;
+  bool has_shared_block = false;
 };
 
 struct GenCfg {
@@ -61,6 +67,7 @@ struct GenCfg {
   bool loops_only = false;   // C16: neither WHILE nor GOTO
   bool force_call_in_loop = false;
   bool dup_params = false;   // C03 "unusual declarations" (never for semantic checks)
+  bool arith_heavy = false;  // many mixed &/* expressions (their meaning depends on the macro priorities)
   int max_top = 8;
   int max_depth = 3;
   int max_stmts = 40;
@@ -151,40 +158,46 @@ struct Gen {
     }
     return v;
   }
-  // T := A | T * A
+  // T := A | T tight A ;  E := T | E loose T   (tight = the arithmetic macro with the higher priority)
   // Priority is dynamic ("highest priority among the steps currently possible"): an operand that
   // still contains an unexpanded lower-priority macro blocks the higher-priority pattern, and the
-  // lower-priority one would then capture a neighbouring operand first. So operands of * contain
-  // no & (anywhere inside), and arguments of f(...) contain neither & nor *.
-  int no_add = 0;
+  // lower-priority one would then capture a neighbouring operand first. So operands of the tight
+  // operator contain no loose operator (anywhere inside), and arguments of f(...) contain neither.
+  int no_loose = 0;
+  Val::K tight() const { return p.swap_prec ? Val::ADD : Val::MUL; }
+  Val::K loose() const { return p.swap_prec ? Val::MUL : Val::ADD; }
+  bool avail(Val::K k, int upto) const {
+    int d = k == Val::ADD ? p.add_def : p.mul_def;
+    return d >= 0 && d < upto;
+  }
+  void used(Val::K k) { p.macros |= (k == Val::ADD ? M_ADD : M_MUL); }
   Val term(const Routine *r, int upto, int depth) {
-    int nmul = 0;
-    if (cfg.user_macros && callp_depth == 0 && p.mul_def >= 0 && p.mul_def < upto)
-      while (nmul < 3 && t.chance(1, 8)) nmul++;
-    if (nmul) no_add++;
+    int n = 0;
+    if (cfg.user_macros && callp_depth == 0 && avail(tight(), upto))
+      while (n < 3 && t.chance(cfg.arith_heavy ? 3 : 1, 8)) n++;
+    if (n) no_loose++;
     Val v = atom(r, upto, depth);
-    for (int i = 0; i < nmul; i++) {
+    for (int i = 0; i < n; i++) {
       Val m;
-      m.k = Val::MUL;
+      m.k = tight();
       m.args.push_back(v);
       m.args.push_back(atom(r, upto, depth));
       v = m;
-      p.macros |= M_MUL;
+      used(tight());
     }
-    if (nmul) no_add--;
+    if (n) no_loose--;
     return v;
   }
-  // E := T | E & T
   Val value(const Routine *r, int upto, int depth) {
     Val v = term(r, upto, depth);
-    if (cfg.user_macros && callp_depth == 0 && no_add == 0 && p.add_def >= 0 && p.add_def < upto) {
-      while (t.chance(1, 7)) {
+    if (cfg.user_macros && callp_depth == 0 && no_loose == 0 && avail(loose(), upto)) {
+      while (t.chance(cfg.arith_heavy ? 3 : 1, 7)) {
         Val m;
-        m.k = Val::ADD;
+        m.k = loose();
         m.args.push_back(v);
         m.args.push_back(term(r, upto, depth));
         v = m;
-        p.macros |= M_ADD;
+        used(loose());
       }
     }
     return v;
@@ -366,9 +379,52 @@ struct Gen {
     resolve_jumps(b, order, labels);
   }
 
+  // a label-free run of 1-2 plain assignments of the main body is duplicated further down; the printers put it
+  // into one file that is included at both places ("the same file included several times one after another
+  // is allowed"; any split of the text over included files)
+  void make_shared_block() {
+    std::vector<size_t> starts;
+    for (size_t i = 0; i < p.main.size(); i++)
+      if (p.main[i].k == Stmt::ASSIGN && p.main[i].labels.empty()) starts.push_back(i);
+    if (starts.empty()) return;
+    size_t a = starts[t.pick((unsigned)starts.size())];
+    size_t len = 1;
+    if (a + 1 < p.main.size() && p.main[a + 1].k == Stmt::ASSIGN && p.main[a + 1].labels.empty() && t.chance(1, 2)) len = 2;
+    size_t gap = t.pick(3);  // 0: twice in a row
+    size_t at = std::min(p.main.size(), a + len + gap);
+    std::vector<Stmt> copy(p.main.begin() + (long)a, p.main.begin() + (long)(a + len));
+    for (size_t k = 0; k < len; k++) {
+      p.main[a + k].share_grp = 1;
+      p.main[a + k].share_occ = 1;
+      copy[k].share_grp = 1;
+      copy[k].share_occ = 2;
+    }
+    p.main.insert(p.main.begin() + (long)at, copy.begin(), copy.end());
+    // both occurrences must be followed by a statement (so that both end in ';' in the canonical layout)
+    if (at + len == p.main.size()) {
+      Stmt tail;
+      tail.k = Stmt::ASSIGN;
+      tail.x = "n";
+      tail.v.k = Val::VAR;
+      tail.v.var = "n";
+      p.main.push_back(tail);
+    }
+    p.has_shared_block = true;
+    classes.insert("same-file-included-twice");
+  }
+
   Program generate() {
+    if (cfg.user_macros) {
+      p.swap_prec = t.chance(1, 3);
+      static const int LO[] = {10, 11, 15}, HI[] = {20, 21, 25};
+      int lo = LO[t.pick(3)], hi = HI[t.pick(3)];
+      p.prio_add = p.swap_prec ? hi : lo;
+      p.prio_mul = p.swap_prec ? lo : hi;
+      p.prio_callp = 30 + (int)t.pick(3);
+    }
+    bool want_shared = t.chance(1, 4);
     // optional arithmetic helper programs for the <V> & <V> / <V> * <V> macros
-    if (cfg.user_macros && t.chance(1, 2)) {
+    if (cfg.user_macros && (cfg.arith_heavy || t.chance(1, 2))) {
       Routine add;
       add.name = "add";
       add.params = {"p", "q"};
@@ -392,7 +448,7 @@ struct Gen {
       }
       p.defs.push_back(add);
       p.add_def = 0;
-      if (t.chance(1, 2)) {
+      if (cfg.arith_heavy || t.chance(1, 2)) {
         Routine mul;
         mul.name = "mul";
         mul.params = {"p", "q"};
@@ -474,6 +530,7 @@ struct Gen {
     }
     std::vector<Stmt> rest = block(nullptr, upto, 0, false, true, cfg.max_top);
     p.main.insert(p.main.end(), rest.begin(), rest.end());
+    if (want_shared) make_shared_block();
     finish_body(p.main);
     return p;
   }
@@ -608,6 +665,7 @@ struct Printer {
   Tape *sp;  // spelling choices (nullptr: canonical upper case)
   std::vector<Tk> out;
   std::map<const Stmt *, size_t> first_tok, end_tok;  // token index of a statement's first token / its END
+  size_t share_a[3] = {0, 0, 0}, share_b[3] = {0, 0, 0};  // token range [a,b) of occurrence 1 and 2 of the shared block
   std::map<const Routine *, size_t> rend_tok;          // token index of a routine's END
   Printer(const Program &p, Tape *sp) : p(p), sp(sp) {}
 
@@ -688,6 +746,14 @@ struct Printer {
     }
   }
   void stmt(const Stmt &s) {
+    stmt_inner(s);
+    if (s.share_grp) {
+      // ranges grow over the consecutive members of one occurrence
+      if (share_b[s.share_occ] == 0) share_a[s.share_occ] = first_tok[&s];
+      share_b[s.share_occ] = out.size();
+    }
+  }
+  void stmt_inner(const Stmt &s) {
     bool first = true;
     first_tok[&s] = out.size();
     auto start = [&](const std::string &tok) {
@@ -787,11 +853,12 @@ struct Printer {
 };
 
 // the fixed macro library; each definition on one line
-inline std::vector<std::string> macro_lines(unsigned bits) {
+inline std::vector<std::string> macro_lines(const Program &p) {
+  unsigned bits = p.macros;
   std::vector<std::string> l;
-  if (bits & M_ADD) l.push_back("DEFINE PRIO 10 <V> & <V> AS RUN add WITH $0, $1 END END DEFINE");
-  if (bits & M_MUL) l.push_back("Define Priority 20 <Value> * <v> As run mul with $0, $1 end Enddef");
-  if (bits & M_CALLP) l.push_back("def prio 30 <ID> ( <ARGS> ) as RUN $0 WITH $1 END enddef");
+  if (bits & M_ADD) l.push_back("DEFINE PRIO " + std::to_string(p.prio_add) + " <V> & <V> AS RUN add WITH $0, $1 END END DEFINE");
+  if (bits & M_MUL) l.push_back("Define Priority " + std::to_string(p.prio_mul) + " <Value> * <v> As run mul with $0, $1 end Enddef");
+  if (bits & M_CALLP) l.push_back("def prio " + std::to_string(p.prio_callp) + " <ID> ( <ARGS> ) as RUN $0 WITH $1 END enddef");
   if (bits & M_IF)
     l.push_back(
         "DEFINE IF <V> THEN <P> ELSE <P> END AS #0 := $0; #1 := 1; LOOP #0 DO #1 := 0 END; #2 := 1; LOOP #1 DO #2 := 0 "
@@ -823,6 +890,16 @@ struct Layout {
   std::map<const Routine *, size_t> rend_tok;
 };
 
+// file names: "all file maps" includes long paths and names with unusual characters
+inline std::string name_prefix(Tape &t) {
+  switch (t.weighted({8, 1, 1, 1})) {
+    case 1: return "a very/long/path/with some spaces/and-a-lot-of-characters/so that fixed size buffers overflow/0123456789/0123456789/0123456789/x/";
+    case 2: return "d\xc3\xa4 r/#1:$0;";
+    case 3: return "_";
+    default: return "";
+  }
+}
+
 // canonical layout: one statement per line, labels on their statement's line, header and END on own lines.
 // `nfiles` > 1 moves runs of whole lines into included files (include directive on its own line).
 inline Layout layout_canonical(const Program &p, Tape &t, int nfiles) {
@@ -833,7 +910,7 @@ inline Layout layout_canonical(const Program &p, Tape &t, int nfiles) {
     std::vector<size_t> toks;
   };
   std::vector<Line> lines;
-  for (auto &m : macro_lines(p.macros)) lines.push_back({m, {}});
+  for (auto &m : macro_lines(p)) lines.push_back({m, {}});
   Line cur;
   for (size_t i = 0; i < pr.out.size(); i++) {
     const Tk &k = pr.out[i];
@@ -854,6 +931,8 @@ inline Layout layout_canonical(const Program &p, Tape &t, int nfiles) {
   }
   if (!cur.text.empty()) lines.push_back(cur);
   Layout L;
+  std::string prefix = name_prefix(t);
+  L.main = prefix + "main.theo";
   L.first_tok = pr.first_tok;
   L.end_tok = pr.end_tok;
   L.rend_tok = pr.rend_tok;
@@ -865,7 +944,48 @@ inline Layout layout_canonical(const Program &p, Tape &t, int nfiles) {
     std::string inc;
   };
   std::map<std::string, std::vector<Entry>> fl;
-  for (auto &l : lines) fl[L.main].push_back({false, l, ""});
+  // the duplicated statement block: its lines go into one file that is included at both places; the lines of the
+  // second occurrence are the same text, their tokens are located in the shared file as well
+  bool share = p.has_shared_block && pr.share_b[1] > pr.share_a[1] && pr.share_b[2] > pr.share_a[2] && t.chance(3, 4);
+  std::string shared_name = prefix + "shared.theo";
+  if (share) {
+    auto lines_of = [&](size_t a, size_t b) {
+      std::vector<size_t> idx;
+      for (size_t li = 0; li < lines.size(); li++)
+        for (size_t ti : lines[li].toks)
+          if (ti >= a && ti < b) {
+            idx.push_back(li);
+            break;
+          }
+      return idx;
+    };
+    std::vector<size_t> l1 = lines_of(pr.share_a[1], pr.share_b[1]), l2 = lines_of(pr.share_a[2], pr.share_b[2]);
+    bool same = l1.size() == l2.size() && !l1.empty();
+    for (size_t k = 0; same && k < l1.size(); k++)
+      if (lines[l1[k]].text != lines[l2[k]].text) same = false;
+    // whole lines only: every token of those lines belongs to the block (plus the trailing ';')
+    // (two inclusions directly after one another would put two statements on the same (file, line) in a row,
+    // which is no longer "one statement per line" for the stepping model: the canonical layout needs a line between)
+    if (same && l1.back() + 1 < l2.front()) {
+      std::vector<Entry> body;
+      for (size_t li : l1) body.push_back({false, lines[li], ""});
+      // second occurrence: same file lines, so give its tokens the positions of the first occurrence's lines
+      for (size_t k = 0; k < l1.size(); k++)
+        for (size_t ti : lines[l2[k]].toks) body[k].line.toks.push_back(ti);
+      fl[shared_name] = body;
+      for (size_t li = 0; li < lines.size(); li++) {
+        if (li == l1.front() || li == l2.front())
+          fl[L.main].push_back({true, Line(), shared_name});
+        else if (std::find(l1.begin(), l1.end(), li) != l1.end() || std::find(l2.begin(), l2.end(), li) != l2.end())
+          continue;
+        else
+          fl[L.main].push_back({false, lines[li], ""});
+      }
+    } else
+      share = false;
+  }
+  if (!share)
+    for (auto &l : lines) fl[L.main].push_back({false, l, ""});
   for (int f = 1; f < nfiles; f++) {
     // pick a file that has at least 2 entries and move a run of its entries out
     std::vector<std::string> names;
@@ -878,7 +998,8 @@ inline Layout layout_canonical(const Program &p, Tape &t, int nfiles) {
     size_t len = 1 + t.pick((unsigned)std::min<size_t>(src.size() - a, 6));
     if (len == src.size()) len--;
     if (len == 0) continue;
-    std::string name = "inc" + std::to_string(f) + ".theo";
+    if (from == shared_name) continue;  // the shared file stays as it is
+    std::string name = prefix + "inc" + std::to_string(f) + ".theo";
     std::vector<Entry> moved(src.begin() + (long)a, src.begin() + (long)(a + len));
     src.erase(src.begin() + (long)a, src.begin() + (long)(a + len));
     src.insert(src.begin() + (long)a, Entry{true, Line(), name});
@@ -903,16 +1024,34 @@ inline Layout layout_canonical(const Program &p, Tape &t, int nfiles) {
 
 // free layout: arbitrary separators between any two tokens, all keyword spellings, comments,
 // macro definitions anywhere at top level of the text, arbitrary token-boundary file splits.
+// macro definitions in free layout: body on its own line, or two definitions on one line
+inline std::string defs_free(const std::vector<std::string> &defs, Tape &t) {
+  std::string out;
+  for (size_t i = 0; i < defs.size(); i++) {
+    std::string d = defs[i];
+    if (t.chance(1, 4)) {
+      size_t as = d.find(" AS ");
+      if (as == std::string::npos) as = d.find(" As ");
+      if (as == std::string::npos) as = d.find(" as ");
+      if (as != std::string::npos) d = d.substr(0, as + 3) + "\n" + d.substr(as + 4);
+    }
+    out += d;
+    out += (i + 1 < defs.size() && t.chance(1, 4)) ? " " : "\n";
+  }
+  return out;
+}
+
 inline Layout layout_free(const Program &p, Tape &t, int nfiles) {
   Printer pr(p, &t);
   pr.program();
-  // token texts, with the macro definitions as opaque pre-formatted chunks in front or in their own file
+  // token texts, with the macro definitions as pre-formatted chunks in front or in their own file
   std::vector<std::string> toks;
-  std::vector<std::string> defs = macro_lines(p.macros);
+  std::vector<std::string> defs = macro_lines(p);
   Layout L;
+  std::string prefix = name_prefix(t);
+  L.main = prefix + "main.theo";
   bool defs_in_file = !defs.empty() && nfiles > 1 && t.chance(1, 2);
-  std::string defs_text;
-  for (auto &d : defs) defs_text += d + "\n";
+  std::string defs_text = defs_free(defs, t);
   for (auto &k : pr.out) toks.push_back(k.text);
   // separators
   std::vector<std::string> seps(toks.size() + 1, " ");
@@ -929,52 +1068,62 @@ inline Layout layout_free(const Program &p, Tape &t, int nfiles) {
   }
   seps[0] = "";
   seps[toks.size()] = t.chance(1, 2) ? "\n" : "";
-  // cut points
-  struct Piece {
+  // cut points: [a,b) token ranges moved to files, disjoint; `name` set = a file that several cuts share
+  struct Cut {
     size_t a, b;
     std::string name;
   };
-  std::vector<Piece> pieces;
-  std::string main_text;
-  std::vector<std::pair<size_t, size_t>> cuts;  // [a,b) token ranges moved to files, disjoint, sorted
+  std::vector<Cut> cuts;
+  if (p.has_shared_block && pr.share_b[1] > pr.share_a[1] && pr.share_b[2] > pr.share_a[2] && t.chance(3, 4)) {
+    // the duplicated statement block goes into one file that is included at both places
+    cuts.push_back({pr.share_a[1], pr.share_b[1], prefix + "shared.theo"});
+    cuts.push_back({pr.share_a[2], pr.share_b[2], prefix + "shared.theo"});
+  }
   for (int f = 1; f < nfiles && toks.size() >= 2; f++) {
     size_t a = t.pick((unsigned)toks.size());
     size_t len = 1 + t.pick((unsigned)std::min<size_t>(toks.size() - a, 24));
     bool overlap = false;
     for (auto &c : cuts)
-      if (!(a + len <= c.first || a >= c.second)) overlap = true;
-    if (!overlap) cuts.push_back({a, a + len});
+      if (!(a + len <= c.a || a >= c.b)) overlap = true;
+    if (!overlap) cuts.push_back({a, a + len, ""});
   }
-  std::sort(cuts.begin(), cuts.end());
+  std::sort(cuts.begin(), cuts.end(), [](const Cut &x, const Cut &y) { return x.a < y.a; });
   size_t pos = 0;
   int fno = 0;
   std::string text;
   if (!defs.empty()) {
     if (defs_in_file) {
-      L.files["macros.theo"] = defs_text;
-      text += "include \"macros.theo\"\n";
+      L.files[prefix + "macros.theo"] = defs_text;
+      text += "include \"" + prefix + "macros.theo\"\n";
     } else
       text += defs_text;
   }
+  static const char *inc[] = {"include", "Include", "INCLUDE"};
   for (auto &c : cuts) {
-    for (size_t i = pos; i < c.first; i++) text += seps[i] + toks[i];
-    std::string name = "part" + std::to_string(++fno) + ".theo";
-    std::string body;
-    for (size_t i = c.first; i < c.second; i++) body += (i == c.first ? "" : seps[i]) + toks[i];
-    // optionally nest: split the part once more
-    if (c.second - c.first >= 4 && t.chance(1, 3)) {
-      size_t mid = c.first + 1 + t.pick((unsigned)(c.second - c.first - 2));
-      std::string n2 = "sub" + std::to_string(fno) + ".theo";
-      std::string b1, b2;
-      for (size_t i = c.first; i < mid; i++) b1 += (i == c.first ? "" : seps[i]) + toks[i];
-      for (size_t i = mid; i < c.second; i++) b2 += (i == mid ? "" : seps[i]) + toks[i];
-      L.files[n2] = b2;
-      body = b1 + " INCLUDE \"" + n2 + "\"";
+    for (size_t i = pos; i < c.a; i++) text += seps[i] + toks[i];
+    std::string name = c.name;
+    if (name.empty()) {
+      name = prefix + "part" + std::to_string(++fno) + ".theo";
+      std::string body;
+      for (size_t i = c.a; i < c.b; i++) body += (i == c.a ? "" : seps[i]) + toks[i];
+      // optionally nest: split the part once more
+      if (c.b - c.a >= 4 && t.chance(1, 3)) {
+        size_t mid = c.a + 1 + t.pick((unsigned)(c.b - c.a - 2));
+        std::string n2 = prefix + "sub" + std::to_string(fno) + ".theo";
+        std::string b1, b2;
+        for (size_t i = c.a; i < mid; i++) b1 += (i == c.a ? "" : seps[i]) + toks[i];
+        for (size_t i = mid; i < c.b; i++) b2 += (i == mid ? "" : seps[i]) + toks[i];
+        L.files[n2] = b2;
+        body = b1 + " INCLUDE \"" + n2 + "\"";
+      }
+      L.files[name] = body;
+    } else if (!L.files.count(name)) {
+      std::string body;
+      for (size_t i = c.a; i < c.b; i++) body += (i == c.a ? "" : seps[i]) + toks[i];
+      L.files[name] = body;
     }
-    L.files[name] = body;
-    static const char *inc[] = {"include", "Include", "INCLUDE"};
-    text += (seps[c.first].empty() ? std::string(" ") : seps[c.first]) + inc[t.pick(3)] + " \"" + name + "\"";
-    pos = c.second;
+    text += (seps[c.a].empty() ? std::string(" ") : seps[c.a]) + inc[t.pick(3)] + " \"" + name + "\"";
+    pos = c.b;
   }
   for (size_t i = pos; i < toks.size(); i++) text += seps[i] + toks[i];
   text += seps[toks.size()];
